@@ -110,8 +110,10 @@ def h_concrete_overrank(ctx):
     minimum-norm least squares, not encodable): the tensor is recovered for
     every seed of the sample generator tried."""
     ok, wf = True, True
+    # (rank profiles that grow along the train with a cap between the largest rank and m: the blocks are compressed)
     for n, rho, m, cap in [([4, 4, 4], 1, 2, 1e12), ([4, 4, 4], 2, 3, 1e12), ([5, 4, 5, 4], 2, 3, 1e12), ([4, 4, 4], 1, 3, 3),
-                           ([4, 5, 4], 2, 4, 4)]:
+                           ([4, 5, 4], 2, 4, 4), ([4, 4, 4], [1, 1, 2, 1], 3, 2), ([5, 5, 5, 5], [1, 1, 2, 3, 1], 4, 3),
+                           ([4, 4, 4], [1, 2, 3, 1], 4, 3)]:
         for seed in range(6):
             T = teneva.rand(n, rho, seed=100 + seed)
             I, idx, idm = teneva.sample_tt(n, r=m, seed=seed)
